@@ -710,7 +710,7 @@ impl Engine for Cursor {
         // every step renders the whole input several times: keep megabyte cases short
         // rarely: more than a thousand inputs suspended at once (depth thresholds), then the usual
         let deep = if pad_bytes == 0 && rng.chance(1, 15000) { 1020 + rng.below(20) } else { 0 };
-        let n = if pad_bytes > 0 { 3 + rng.below(7) } else { deep + 3 + rng.below(if deep > 0 { 12 } else { 48 }) };
+        let n = if pad_bytes > 0 { 2 + rng.below(4) } else { deep + 3 + rng.below(if deep > 0 { 12 } else { 48 }) };
         let mut st = Stats::new();
         for k in 0..n {
             let step = if k < deep {
